@@ -52,7 +52,7 @@ fn make_sampler(name: &str, seed: u64) -> Box<dyn Sampler> {
 
 pub fn run_case(trace: &mut Trace, c: &CaseSpec) {
     trace.emit(json!({"ev": "case", "sampler": c.sampler, "src": c.src, "dense": c.dense, "seed": c.seed,
-                      "vs": c.vs.iter().map(|v| v.json()).collect::<Vec<_>>(), "rounds": c.rounds, "draws": c.draws}));
+                      "vs": c.vs.iter().map(|v| v.json()).collect::<Vec<_>>(), "rounds": c.rounds, "draws": c.draws, "useeds": []}));
     let inputs: Vec<Logits> = c.vs.iter().map(|v| v.logits(c.dense)).collect();
     let a = make_sampler(&c.sampler, c.seed);
     let b = make_sampler(&c.sampler, c.seed);
@@ -94,6 +94,98 @@ pub fn run_case(trace: &mut Trace, c: &CaseSpec) {
             Err(_) => {
                 trace.emit(json!({"ev": "pick", "i": i + 1, "outcome": "panic", "total": 0, "ids": [], "counts": []}));
                 return;
+            }
+        }
+    }
+}
+
+// ------------------------------------------------- controlled draws (C33 b)
+
+/// First uniform draw of `Multinomial::with_seed(seed)`: the sampler calls
+/// `rng.f32()` once per sample on a `fastrand::Rng::with_seed(seed)`.
+pub fn first_draw(seed: u64) -> f32 {
+    fastrand::Rng::with_seed(seed).f32()
+}
+
+/// Scan seeds 0..n and keep those whose first draw is extreme (the `hi` largest:
+/// they land in the rounding gap above the f32 sum of the probabilities
+/// whenever there is one; the `lo` smallest) plus a spread of ordinary ones.
+pub fn scan_seeds(n: u64, hi: usize, lo: usize, ordinary: usize) -> Vec<u64> {
+    let mut all: Vec<(u32, u64)> = (0..n).map(|s| (first_draw(s).to_bits(), s)).collect();
+    let step = (n as usize / ordinary.max(1)).max(1);
+    let mut out: Vec<u64> = (0..ordinary).map(|i| (i * step) as u64 + 1).collect();
+    all.sort();
+    out.extend(all.iter().take(lo).map(|x| x.1));
+    out.extend(all.iter().rev().take(hi).map(|x| x.1));
+    out
+}
+
+/// One draw from a fresh `Multinomial::with_seed(seed)` for every seed.
+pub fn run_sized_case(trace: &mut Trace, src: &str, dense: bool, v: &Vector, seeds: &[u64]) {
+    trace.emit(json!({"ev": "case", "sampler": "multinomial", "src": src, "dense": dense, "seed": 0,
+                      "vs": [v.json()], "rounds": 0, "draws": seeds.len(), "useeds": seeds}));
+    let input = v.logits(dense);
+    let r = guarded(|| seeds.iter().map(|s| Multinomial::with_seed(*s).sample(&input)).collect::<Vec<u32>>());
+    let ubits: Vec<i32> = seeds.iter().map(|s| first_draw(*s).to_bits() as i32).collect();
+    match r {
+        Ok(ids) => trace.emit(json!({"ev": "udraw", "i": 1, "outcome": "ok", "ubits": ubits, "ids": ids})),
+        Err(_) => trace.emit(json!({"ev": "udraw", "i": 1, "outcome": "panic", "ubits": ubits, "ids": []})),
+    }
+}
+
+/// Candidate sets of sizes around every plausible block / vector width with
+/// zero-probability (-inf) candidates first, in the middle and as a tail.
+fn sized(trace: &mut Trace, thorough: bool) {
+    let mut rng = Rng::new(vcommon::seed_from_env() ^ 0x5151);
+    let seeds = scan_seeds(if thorough { 1 << 24 } else { 1 << 22 }, if thorough { 48 } else { 24 }, 6, 6);
+    let small = [15usize, 16, 17, 31, 32, 33, 255, 256, 257];
+    let big: &[usize] = if thorough { &[4096, 65528, 65536] } else { &[4096, 65528] };
+    let ninf = f32::NEG_INFINITY;
+    let mut emit = |n: usize, pat: usize, tail: usize, head: usize, mid: usize, dense: bool, rng: &mut Rng| {
+        let base = rng.range(-5, 5) as f32;
+        let mut vals: Vec<f32> = (0..n)
+            .map(|_| match pat {
+                0 => base,                                              // equal probabilities
+                1 => base + (rng.next_u64() % 1000) as f32 * 1e-4,      // nearly equal
+                2 => rng.range(-20, 20) as f32,                         // spread
+                3 => rng.range(-100, 80) as f32,                        // huge spread: denormal / zero probabilities
+                _ => base + rng.range(0, 2) as f32 * 0.5,               // ties
+            })
+            .collect();
+        for x in vals.iter_mut().take(head) {
+            *x = ninf;
+        }
+        for i in 0..mid {
+            let j = n / 2 + i;
+            if j < n {
+                vals[j] = ninf;
+            }
+        }
+        for i in 0..tail.min(n.saturating_sub(1)) {
+            vals[n - 1 - i] = ninf;
+        }
+        if vals.iter().all(|x| *x == ninf) {
+            vals[n / 3] = base;
+        }
+        let ids: Vec<u32> = if dense { (0..n as u32).collect() } else { (0..n as u32).map(|i| 3 * i + 2).collect() };
+        run_sized_case(trace, "sized", dense, &Vector { ids, vals }, &seeds);
+    };
+    for &n in small.iter() {
+        for tail in 0..=20usize {
+            let pat = (tail + n) % 5;
+            emit(n, pat, tail, 0, 0, tail % 2 == 0, &mut rng);
+        }
+        for pat in 0..5 {
+            emit(n, pat, 0, 1 + pat, 0, pat % 2 == 0, &mut rng);
+            emit(n, pat, 3, 0, 1 + 4 * pat, pat % 2 == 1, &mut rng);
+        }
+    }
+    for &n in big {
+        let tails: &[usize] = if n == 4096 { &[0, 1, 5, 15, 16, 17, 20] } else { &[0, 3, 17] };
+        for (j, &tail) in tails.iter().enumerate() {
+            let pats: &[usize] = if n == 4096 || thorough { &[0, 1, 2] } else { &[0, 1] };
+            for &pat in pats {
+                emit(n, pat, tail, if j % 2 == 1 { 2 } else { 0 }, if j % 3 == 2 { 9 } else { 0 }, (j + pat) % 2 == 0, &mut rng);
             }
         }
     }
@@ -207,7 +299,12 @@ pub fn main_samplers() {
             rounds: c["rounds"].as_u64().unwrap_or(1) as usize,
             draws: c["draws"].as_u64().unwrap_or(1) as usize,
         };
-        run_case(&mut trace, &spec);
+        let useeds: Vec<u64> = c["useeds"].as_array().map(|a| a.iter().map(|x| x.as_u64().unwrap()).collect()).unwrap_or_default();
+        if useeds.is_empty() {
+            run_case(&mut trace, &spec);
+        } else {
+            run_sized_case(&mut trace, "replay", spec.dense, &spec.vs[0], &useeds);
+        }
         return;
     }
     if let Some(path) = arg("--vectors") {
@@ -233,5 +330,8 @@ pub fn main_samplers() {
     let n = arg_usize("--seeded", 0);
     if n > 0 {
         seeded(&mut trace, n, draws);
+    }
+    if let Some(t) = arg("--sized") {
+        sized(&mut trace, t == "thorough");
     }
 }
